@@ -1,3 +1,4 @@
+import TflModel.Lemmas.JointUnimod
 import TflModel.Lemmas.Units
 /-! C09: the Dykstra group projections only read coordinates below the rank, so running them on the
 `sizes ++ [units]` tensor (lattice_lib.py:1918-1923) is running them on every unit slice. -/
@@ -83,6 +84,33 @@ theorem rangeDomGroup_sliceStage (n M N a b i j : Nat) (ha : a < n) (hb : b < n)
     have eg : ∀ x y, gat f a b x y idx = gat g a b x y idx := fun x y => gat_congr h _ _ x y hl
     simp only [rangeDomGroup, e0, eg]
 
+theorem setcs_append_lt {idx : Idx} {dims : List Nat} (pos : List Nat) (u : Nat)
+    (h : ∀ d ∈ dims, d < idx.length) : setcs (idx ++ [u]) dims pos = setcs idx dims pos ++ [u] := by
+  induction dims generalizing idx pos with
+  | nil => cases pos <;> rfl
+  | cons d ds ih =>
+    cases pos with
+    | nil => rfl
+    | cons v vs =>
+      simp only [setcs]
+      rw [setc_append_lt u v (h d (List.mem_cons_self ..))]
+      exact ih vs (fun e he => by simpa using h e (List.mem_cons_of_mem _ he))
+
+theorem coordsOf_append_lt {idx : Idx} {dims : List Nat} (u : Nat) (h : ∀ d ∈ dims, d < idx.length) :
+    coordsOf (idx ++ [u]) dims = coordsOf idx dims := by
+  unfold coordsOf
+  exact List.map_congr_left (fun d hd => coord_append_lt u (h d hd))
+
+theorem hyperplaneGroup_sliceStage (n : Nat) (dims : List Nat) (valley : Bool) (st : List (List Nat × Int))
+    (hd : ∀ d ∈ dims, d < n) : SliceStage n (hyperplaneGroup dims valley st) := by
+  refine ⟨fun w u idx hl => ?_, fun f g h idx hl => ?_⟩
+  · have hd' : ∀ d ∈ dims, d < idx.length := fun d hdd => by rw [hl]; exact hd d hdd
+    simp only [hyperplaneGroup, slice, coordsOf_append_lt u hd', setcs_append_lt _ u hd']
+  · have e0 := h idx hl
+    have es : ∀ pos, f (setcs idx dims pos) = g (setcs idx dims pos) :=
+      fun pos => h _ (by simpa using hl)
+    simp only [hyperplaneGroup, e0, es]
+
 /-! ### the loop -/
 
 /-- aligned lists of `last_change` tensors -/
@@ -156,6 +184,7 @@ structure DCfgWF (c : DCfg) : Prop where
   unimod_len : c.unimod.length ≤ c.sizes.length
   trusts : ∀ tr ∈ c.edgeworth ++ c.trapezoid, tr.main < c.sizes.length ∧ tr.cond < c.sizes.length
   pairs : ∀ p ∈ c.monoDom ++ c.rangeDom ++ c.jointMono, p.1 < c.sizes.length ∧ p.2 < c.sizes.length
+  jus : ∀ ju ∈ c.jointUnimod, ∀ d ∈ ju.dims, d < c.sizes.length
 
 theorem getD_append_zero (l : List Int) (d : Nat) : (l ++ [0]).getD d 0 = l.getD d 0 := by
   simp only [List.getD_eq_getElem?_getD]
@@ -181,8 +210,8 @@ theorem groups_dcfgU (c : DCfg) (units : Nat) (h : DCfgWF c) : groups (dcfgU c u
     have : c.unimod[c.sizes.length]? = none := by simp; exact h.unimod_len
     simp [List.getD_eq_getElem?_getD, this]
   simp only [groups]
-  refine congrArg₂ (· ++ ·) (congrArg₂ (· ++ ·) (congrArg₂ (· ++ ·) (congrArg₂ (· ++ ·)
-    (congrArg₂ (· ++ ·) ?_ ?_) ?_) ?_) ?_) ?_
+  refine congrArg₂ (· ++ ·) (congrArg₂ (· ++ ·) (congrArg₂ (· ++ ·) (congrArg₂ (· ++ ·) (congrArg₂ (· ++ ·)
+    (congrArg₂ (· ++ ·) ?_ ?_) ?_) ?_) ?_) ?_) ?_
   · -- monotonicity groups
     simp only [dcfgU, List.length_append, List.length_cons, List.length_nil, zero_add, List.range_succ,
       List.flatMap_append, List.flatMap_cons, List.flatMap_nil, getD_append_false, getD_append_zero,
@@ -215,12 +244,19 @@ theorem groups_dcfgU (c : DCfg) (units : Nat) (h : DCfgWF c) : groups (dcfgU c u
     intro p hp
     have ht := h.pairs p (List.mem_append_right _ hp)
     simp only [sz_dcfgU c units _ ht.1, sz_dcfgU c units _ ht.2]
+  · apply List.flatMap_congr
+    intro ju hju
+    have : ju.dims.map (sz (dcfgU c units)) = ju.dims.map (sz c) :=
+      List.map_congr_left (fun d hd => sz_dcfgU c units d (h.jus ju hju d hd))
+    simp only [this]
 
 theorem groups_sliceStage (c : DCfg) (h : DCfgWF c) : ∀ P ∈ groups c, SliceStage c.sizes.length P := by
   intro P hP
   unfold groups at hP
-  simp only [List.mem_append, List.mem_flatMap, List.mem_map, List.mem_range, List.mem_filter] at hP
-  rcases hP with ((((( ⟨d, hd, hP⟩ | ⟨tr, htr, hP⟩) | ⟨tr, htr, hP⟩) | ⟨p, hp, hP⟩) | ⟨p, hp, hP⟩) | ⟨p, hp, hP⟩)
+  simp only [List.mem_append, List.mem_flatMap, List.mem_map, List.mem_range, List.mem_filter,
+    List.mem_filterMap] at hP
+  rcases hP with (((((( ⟨d, hd, hP⟩ | ⟨tr, htr, hP⟩) | ⟨tr, htr, hP⟩) | ⟨p, hp, hP⟩) | ⟨p, hp, hP⟩) | ⟨p, hp, hP⟩) |
+    ⟨ju, hju, vertex, _, offs, _, hP⟩)
   · split at hP
     · cases hP
     · simp only [List.mem_map, List.mem_filter] at hP
@@ -241,5 +277,12 @@ theorem groups_sliceStage (c : DCfg) (h : DCfgWF c) : ∀ P ∈ groups c, SliceS
   · obtain ⟨g, _, rfl⟩ := hP
     have ht := h.pairs p (List.mem_append_right _ hp)
     exact jointMonoGroup_sliceStage _ _ _ _ _ _ _ _ ht.1 ht.2
+  · cases hs : juStencil (ju.dims.map (sz c)) vertex offs with
+    | none => rw [hs] at hP; cases hP
+    | some st =>
+      rw [hs] at hP
+      simp only [Option.map_some, Option.some.injEq] at hP
+      subst hP
+      exact hyperplaneGroup_sliceStage _ _ _ _ (h.jus ju hju)
 
 end Tfl.Units
